@@ -488,7 +488,7 @@ func orderedLessAll(x *cx) {
 	orderedLess(x, "uint16", []uint16{0, 1, math.MaxUint16})
 	orderedLess(x, "uint32", []uint32{0, 1, math.MaxUint32})
 	orderedLess(x, "uint64", []uint64{0, 1, 1 << 63, math.MaxUint64})
-	orderedLess(x, "uintptr", []uintptr{0, 1, math.MaxUint64})
+	orderedLess(x, "uintptr", []uintptr{0, 1, ^uintptr(0)})
 	orderedLess(x, "float64", []float64{math.Inf(-1), -math.MaxFloat64, -1, -math.SmallestNonzeroFloat64, math.Copysign(0, -1), 0, math.SmallestNonzeroFloat64, 1, math.MaxFloat64, math.Inf(1)})
 	orderedLess(x, "float32", []float32{float32(math.Inf(-1)), -math.MaxFloat32, -1, 0, math.SmallestNonzeroFloat32, 1, math.MaxFloat32, float32(math.Inf(1))})
 	orderedLess(x, "string", []string{"", "\x00", "a", "a\x00", "ab", "b", "\xff", "é"})
